@@ -63,6 +63,8 @@ type mctx struct {
 	leaves []oracleLeaf
 	nextID int
 	cfg    regCfg
+
+	illFormed bool
 }
 
 func (c *mctx) newLeaf(v interface{}) int {
@@ -95,6 +97,9 @@ func runSops(w interface{}, ops []sop) {
 			sp.Print(goArgs(o.args)...)
 		case "pf":
 			sp.Printf(o.p, goArgs(o.args)...)
+		case "ip":
+			// an unrelated print call in the middle of the method: its own printer from the pool
+			_ = redact.Sprintf("%d|%s", 123456789, "independent-independent-independent")
 		case "pa":
 			panic(o.pay.goVal)
 		}
@@ -259,7 +264,9 @@ func (c *mctx) genScript(depth int) []sop {
 				ops = append(ops, sop{tag: "pf", p: []string{"n:%v|%d", "[%s]", "%v %v", "lit‹"}[r.Intn(4)], args: as})
 			}
 		case 6:
-			if r.Chance(25) {
+			if r.Chance(50) {
+				ops = append(ops, sop{tag: "ip"})
+			} else if r.Chance(50) {
 				pl := c.genPayload()
 				ops = append(ops, sop{tag: "pa", pay: pl})
 				return ops
@@ -391,6 +398,12 @@ func (c *mctx) gen(depth int) *mval {
 		return &mval{k: mUnsafe, kids: []*mval{in}, goVal: redact.Unsafe(in.goVal)}
 	case x < 22:
 		s := redactPool[r.Intn(len(redactPool))]
+		if r.Chance(6) {
+			// a hand-made, ill-formed "redactable" (documented misuse): the model mirrors what the code
+			// does with it; the well-formedness oracle is not applied to such cases
+			s = []string{"›", "‹", "a›", "›‹", "‹\n›"}[r.Intn(5)]
+			c.illFormed = true
+		}
 		if r.Bool() {
 			return &mval{k: mRedactable, red: s, asB: true, goVal: redact.RedactableBytes(s)}
 		}
@@ -597,6 +610,8 @@ func (c *mctx) serScript(ops []sop, sb *strings.Builder) {
 			for _, a := range o.args {
 				c.ser(a, sb)
 			}
+		case "ip":
+			w("ip")
 		case "pa":
 			w("pa")
 			c.ser(o.pay, sb)
@@ -810,9 +825,9 @@ func printerModelCase(r *Rng, route string, emit func(Case)) {
 	sb.WriteString("| ")
 	sb.WriteString(c.table(candidateDirs(format, args, route != "sprint")))
 	var orc []string
-	if pm == "" {
+	if pm == "" && !c.illFormed {
 		if e := wflErr([]byte(out)); e != "" {
-			orc = append(orc, "C01:printer output not well-formed/line-safe: "+e)
+			orc = append(orc, wfTag(e)+"printer output not well-formed/line-safe: "+e)
 		}
 	}
 	if dp := os.Getenv("VERIF_PM_DUMP"); dp != "" {
